@@ -553,7 +553,12 @@ fn relations_hold<E: Elt>(lanes: usize, kmax: usize, main: &RowMajorMatrix<F>, p
             let m = lane * 4 * d;
             let p = lane * 13;
             if prow[p] == F::ZERO {
-                continue; // padding / separator lane
+                // padding / separator lane; on lane 0 its `out` is the next chain's start
+                // accumulator and must be zero (fix F22)
+                if lane == 0 && get(&row, m + 3 * d) != E::ZERO {
+                    return false;
+                }
+                continue;
             }
             let (a, b, c, out): (E, E, E, E) = (get(&row, m), get(&row, m + d), get(&row, m + 2 * d), get(&row, m + 3 * d));
             let ok = if prow[p + 1] == F::ONE {
@@ -663,12 +668,18 @@ fn sched_case<E: Elt>(rng: &mut Rng, kind: Kind, hist: &mut BTreeMap<String, u64
         let r = rng.usize(main.height());
         let prow: Vec<F> = prep.row_slice(r).unwrap().to_vec();
         let lane = rng.usize(lanes);
-        if prow[lane * 13] == F::ZERO {
+        // one tamper in four hits an arbitrary cell of the row — inactive lanes, separator and
+        // padding rows, unused extra columns included: a cell nobody constrains must also be a
+        // cell nobody *reads* (neither another row's constraint nor a live bus tuple)
+        let anywhere = rng.chance(1, 4);
+        if !anywhere && prow[lane * 13] == F::ZERO {
             continue;
         }
         let extra_prep = lanes * 13;
         let k = (2..=kmax).find(|kk| prow[extra_prep + kk - 2] == F::ONE).unwrap_or(1);
-        let col = if lane == 0 && k >= 2 && rng.chance(1, 2) {
+        let col = if anywhere {
+            rng.usize(w)
+        } else if lane == 0 && k >= 2 && rng.chance(1, 2) {
             match rng.below(4) {
                 // b^2 column
                 0 => lanes * 4 * d + num_int * d + 2 * (kmax - 1) * d + rng.usize(d),
